@@ -308,7 +308,9 @@ func manySegments(c *CaseCtx, class string) {
 		n := 260 + r.Intn(80)
 		for i := 0; i < n; i++ {
 			k := []byte(fmt.Sprintf("k%03d", i%50))
-			if err := db.Update(func(tx *nutsdb.Tx) error { return tx.Put("b", k, []byte(fmt.Sprintf("value-%d-padding-padding", i)), 0) }); err != nil {
+			if err := db.Update(func(tx *nutsdb.Tx) error {
+				return tx.Put("b", k, []byte(fmt.Sprintf("value-%d-padding-padding", i)), 0)
+			}); err != nil {
 				c.Violate("commit-error:"+errClass(err.Error()), class, fmt.Sprintf("Put %d failed (%s): %v", i, cfg, err))
 				break
 			}
